@@ -187,7 +187,10 @@ def run(ctx):
         else:
             if a.cls != "error" or a.stdout != b"" or b.cls != "error":
                 ctx.violation("cli-index-reject", case, "error, no output", dict(index=str(a), path=str(b)))
-    bad_paths = ["", " ", "m", "m/", "/", "m/0/", "m//0", "x", "m/2147483648", "44'/60'/0'/0/0", "m/0 ", " m/0", "m/0\n"]
+    bad_paths = ["", " ", "m", "m/", "/", "m/0/", "m//0", "x", "m/2147483648", "44'/60'/0'/0/0", "m/0 ", " m/0", "m/0\n",
+                 # text that is something else the tool knows (an account index, a number, an address, a phrase word) but no path
+                 "5", "0", "007", "2147483647", "2147483648", "+5", "5'", "0x5", "0/1", "/0", "m/44'/60'/0'/0/0/", "m/44'//60'/0'/0/0", "m//", "//", "m/m/0", "M/0",
+                 "m\\0", "m.0", "m/0,1", "m/0;m/1", "zoo", "0x" + "11" * 20]
     runs = []
     for bp in bad_paths:
         runs.append(dict(args=["address", "--mnemonic", phrase, "--hd-path=" + bp], bp=bp, via="flag"))
